@@ -261,6 +261,35 @@ def run_case(case, rng):
         wtc = np_ptrace(M, dims, keep) if keep else np.array([[np.trace(M)]])
         if tc.full().shape != wtc.shape or np.abs(tc.full() - wtc).max() > 1e-9:
             viol.append(("tensor_contract", f"tensor_contract(dims={dims}, ({a},{k + a})) is not the contraction of subsystem {a}"))
+        # several contraction pairs in one call, in any order of the pairs and within a pair: the einsum over those pairs
+        if k >= 3:
+            for npairs in (2, 3):
+                subs = [int(x) for x in rng.choice(k, size=min(npairs, k - 1), replace=False)]
+                pairs_c = [(a_, k + a_) if rng.random() < 0.7 else (k + a_, a_) for a_ in subs]
+                keep_c = [x for x in range(k) if x not in subs]
+                want_c = np_ptrace(M, dims, keep_c) if keep_c else np.array([[np.trace(M)]])
+                try:
+                    got_c = qutip.tensor_contract(Mq, *pairs_c)
+                    if got_c.full().shape != want_c.shape or np.abs(got_c.full() - want_c).max() > 1e-9:
+                        viol.append(("tensor_contract-pairs", f"tensor_contract(dims={dims}, {pairs_c}) is not the contraction of subsystems {subs}"))
+                except Exception as e:
+                    viol.append(("tensor_contract-raises", f"tensor_contract(dims={dims}, {pairs_c}): {type(e).__name__}: {e}"[:200]))
+        # pure states with complex amplitudes: ket, bra and projector have the same reduced state
+        if k >= 2 and n <= 48:
+            amp = (np.arange(n) + 1) * np.exp(1j * 0.37 * np.arange(n) ** 2)
+            amp = amp / np.linalg.norm(amp)
+            ketq = qutip.Qobj(amp.reshape(-1, 1), dims=[dims, [1] * k])
+            for sel_ in case["sels"][:2]:
+                want_r = np_ptrace(np.outer(amp, amp.conj()), dims, sel_)
+                for nm_, obj_ in (("ket", ketq), ("bra", ketq.dag()), ("projector", ketq.proj())):
+                    for fmt_ in ("dense", "csr"):
+                        try:
+                            got_r = obj_.to(fmt_).ptrace(sel_).full()
+                        except Exception as e:
+                            viol.append(("ptrace-pure-raises", f"ptrace of a {nm_} on {dims}, sel={sel_}: {type(e).__name__}: {e}"[:200]))
+                            continue
+                        if got_r.shape != want_r.shape or np.abs(got_r - want_r).max() > 1e-12:
+                            viol.append((f"ptrace-pure:{nm_}", f"ptrace(sel={sel_}) of a {nm_} with complex amplitudes on {dims} ({fmt_}) is not the reduced density matrix of the state"))
         # partial transpose
         mask = case["mask"]
         pt = qutip.partial_transpose(Mq, mask)
